@@ -2,6 +2,7 @@
 import os
 import re
 import sys
+sys.setrecursionlimit(max(sys.getrecursionlimit(), 40000))      # chains of 400 operands nest 400 levels deep in every tree walker
 
 sys.path.insert(0, os.path.dirname(os.path.dirname(os.path.abspath(__file__))))
 import sylt_gen as G  # noqa: E402
